@@ -76,6 +76,7 @@ extern uint64_t rsv_clock_hr(void);
 extern int rsv_threads_virtual(void);
 extern int rsv_thread_start(void *thr_p, void *(*fn)(void *), void *arg);
 extern int rsv_thread_join(void *thr_p, void **ret);
+extern unsigned rsv_batch_size(unsigned dflt);
 
 #define RSV_YIELD(site) rsv_yield(site)
 #define RSV_EV(kind, p, a, b, t) rsv_ev((kind), (p), (uint64_t)(a), (uint64_t)(b), (t))
